@@ -163,13 +163,14 @@ def catalogue():
     from fim.slivers.delegations import DelegationType
     from fim.slivers.attached_components import AttachedComponentsInfo, ComponentSliver, ComponentType
 
-    def comps():
+    def comps(spec=((ComponentType.GPU, "Tesla T4"), (ComponentType.SmartNIC, "ConnectX-6"))):
         aci = AttachedComponentsInfo()
-        for i, (t, m) in enumerate(((ComponentType.GPU, "Tesla T4"), (ComponentType.SmartNIC, "ConnectX-6"))):
+        for i, (t, m) in enumerate(spec):
             c = ComponentSliver()
             c.set_name("c%d" % i)
             c.set_type(t)
-            c.set_model(m)
+            if m is not None:
+                c.set_model(m)
             aci.add_device(c)
         return aci
 
@@ -227,6 +228,12 @@ def catalogue():
         "cbm.get_delegations": lambda e, V: e["cbm"].get_delegations(node_id=V["n"], adm_id=V["g2"], delegation_type=DelegationType.CAPACITY),
         "cbm.get_matching_nodes_with_components": lambda e, V: e["cbm"].get_matching_nodes_with_components(label="NetworkNode", props={"Site": V["v"], "Type": "Server"}),
         "cbm.get_matching_nodes_with_components[comps]": lambda e, V: e["cbm"].get_matching_nodes_with_components(label="NetworkNode", props={"Site": V["v"]}, comps=comps()),
+        "cbm.get_matching_nodes_with_components[comps without model]": lambda e, V: e["cbm"].get_matching_nodes_with_components(
+            label="NetworkNode", props={"Site": V["v"]}, comps=comps(((ComponentType.SharedNIC, None), (ComponentType.GPU, "Tesla T4"), (ComponentType.GPU, "Tesla T4")))),
+        "cbm.get_matching_nodes_with_components[one comp, no model]": lambda e, V: e["cbm"].get_matching_nodes_with_components(
+            label="NetworkNode", props={"Site": V["v"]}, comps=comps(((ComponentType.SharedNIC, None),))),
+        "cbm.get_matching_nodes_with_components[no props]": lambda e, V: e["cbm"].get_matching_nodes_with_components(
+            label="NetworkNode", props={}, comps=comps()),
         "cbm.get_intersite_links": lambda e, V: e["cbm"].get_intersite_links(),
         "cbm.get_sites": lambda e, V: e["cbm"].get_sites(),
         "cbm.get_disconnected_sites": lambda e, V: e["cbm"].get_disconnected_sites(),
